@@ -647,7 +647,7 @@ impl Builder<'_> {
         EAmt::One => 1,
         EAmt::Seven => 7,
         EAmt::All => bal,
-        EAmt::AllPlusOne => bal + 1,
+        EAmt::AllPlusOne => bal.saturating_add(1),
       };
       let output = match out {
         EOut::Idx(i) => u128::from(*i),
@@ -1364,6 +1364,8 @@ pub fn run_into(ctx: &Ctx, property: &'static str, mut report: Report) -> Report
     for (p, c, what) in &ex.violations {
       if p == property {
         report.violation(format!("{c}/batched-{tag}"), what.clone(), json!({"scenario": tag, "thorough": ctx.thorough()}));
+      } else if p == "MACHINERY" {
+        report.violation(c.clone(), what.clone(), json!({"scenario": tag}));
       }
     }
     report.set(&format!("batched.{tag}.decided_cases"), sc.decided_cases);
